@@ -400,7 +400,7 @@ def plan_c13():
             core_token("C13.core.token", "c01", T(tier, 800, 40000)),
             # three containers on the fallback-only strategy: writers of one container meet readers of another in every helping state
             core_token("C13.core.token.fill", "c12", T(tier, 2500, 80000), strat="fill"),
-            core_free("C13.core.free.fill", "c12", T(tier, 5, 60), alloc="reuse", shards=2, extra=["strat=fill"]),
+            core_free("C13.core.free.fill", "c12", T(tier, 6, 60), alloc="reuse", shards=4, extra=["strat=fill"], threads=4),
             life_job("C13.life.token", "token", execs=T(tier, 300, 15000)),
         ]
         for k in ([1] if tier == "quick" else [0, 1, 2, 5, 9, 16]):
